@@ -1,0 +1,63 @@
+use std::{future::Future, num::NonZeroU64, pin::Pin, sync::Arc};
+
+use netconf::{transport::Transport, Session};
+
+use crate::{
+    cli::{IrrdOpts, JunosOpts},
+    netconf::verif::SimTarget,
+    task::Updater,
+};
+
+pub type Connector<T> =
+    Arc<dyn Fn() -> Pin<Box<dyn Future<Output = anyhow::Result<Session<T>>> + Send>> + Send + Sync>;
+
+fn updater<T: Transport + 'static>(
+    connect: Connector<T>,
+    irrd_host: &str,
+    irrd_port: u16,
+    ephemeral_db: &str,
+) -> Updater<SimTarget<T>> {
+    Updater::new(
+        SimTarget::new(connect),
+        IrrdOpts::verif_new(irrd_host.to_string(), irrd_port),
+        JunosOpts::verif_new(ephemeral_db.to_string()),
+    )
+}
+
+pub async fn run_once<T: Transport + 'static>(
+    connect: Connector<T>,
+    irrd_host: &str,
+    irrd_port: u16,
+    ephemeral_db: &str,
+) -> anyhow::Result<()> {
+    updater(connect, irrd_host, irrd_port, ephemeral_db).run().await
+}
+
+pub async fn run_loop<T: Transport + 'static>(
+    connect: Connector<T>,
+    irrd_host: &str,
+    irrd_port: u16,
+    ephemeral_db: &str,
+    frequency: NonZeroU64,
+) -> anyhow::Result<()> {
+    updater(connect, irrd_host, irrd_port, ephemeral_db)
+        .init_loop(frequency)
+        .start()
+        .await
+}
+
+/// Evaluated policy as seen by `compare`: `(name, filter expression, Some((ipv4, ipv6)) | None)`.
+pub type EvaluatedInput = (String, String, Option<(Vec<String>, Vec<String>)>);
+
+pub fn read_candidates(doc: &str) -> Result<Vec<(String, String)>, String> {
+    crate::policies::verif::read_candidates(doc)
+}
+
+#[allow(clippy::type_complexity)]
+pub fn read_installed(doc: &str) -> Result<Vec<(String, Vec<String>, Vec<String>)>, String> {
+    crate::policies::verif::read_installed(doc)
+}
+
+pub fn plan(installed_doc: &str, evaluated: &[EvaluatedInput]) -> Result<Vec<String>, String> {
+    crate::policies::verif::plan(installed_doc, evaluated)
+}
